@@ -61,7 +61,8 @@ class StatsModel:
         fields = r[0].ret[3]
         self.k_sum = [i for i, x in enumerate(fields) if x == T.sym('v')]
         self.k_comp = [i for i, x in enumerate(fields) if x == ZERO]
-        if len(self.k_sum) != 1 or len(self.k_comp) != len(fields) - 1:
+        self.k_aux = [i for i, x in enumerate(fields) if x == T.AUX]      # auxiliary fields (sa/layout.py)
+        if len(self.k_sum) != 1 or len(self.k_comp) != len(fields) - 1 - len(self.k_aux):
             self.problems.append('KahanSum::new: cannot identify running sum / compensation fields: %s' % T.show(r[0].ret))
             return
         self.k_sum = self.k_sum[0]
@@ -75,6 +76,8 @@ class StatsModel:
         for i in range(self.k_n):
             if i == self.k_sum:
                 fields.append(s)
+            elif i in self.k_aux:
+                fields.append(T.AUX)
             else:
                 fields.append(comps[j] if comps else ZERO)
                 j += 1
@@ -118,7 +121,9 @@ class StatsModel:
         kp = self.kahan['path']
         regs = [i for i, x in enumerate(d[3]) if x[0] == 'adt' and x[1] == kp]
         cnts = [i for i, x in enumerate(d[3]) if x[0] == 'int']
-        if len(regs) != 2 or len(cnts) != 1 or len(d[3]) != 3:
+        self.a_aux = [i for i, x in enumerate(d[3]) if x == T.AUX]
+        self.a_len = len(d[3])
+        if len(regs) != 2 or len(cnts) != 1 or len(d[3]) - len(self.a_aux) != 3:
             self.problems.append('Arithmetic state is not (register, register, counter): %s' % T.show(d))
             return
         # roles from one append(x) on a symbolic state
@@ -152,7 +157,7 @@ class StatsModel:
         self.a_s1, self.a_s2, self.a_n = role['s1'], role['s2'], cnts[0]
 
     def arith_state(self, s1, s2, n):
-        f = [None, None, None]
+        f = [T.AUX] * self.a_len
         f[self.a_s1] = self.kahan_value(s1)
         f[self.a_s2] = self.kahan_value(s2)
         f[self.a_n] = n
@@ -177,9 +182,23 @@ class StatsModel:
         out = []
         for i in (self.a_s1, self.a_s2):
             r = state[3][i]
-            out.extend(x for j, x in enumerate(r[3]) if j != self.k_sum)
+            out.extend(x for j, x in enumerate(r[3]) if j != self.k_sum and j not in self.k_aux)
         return out
 
     def wrapper_state(self, adt, inner):
-        """State of a single-field wrapper (Harmonic, Geometric, Paired) around `inner`."""
-        return ('adt', adt['path'], 0, (inner,))
+        """State of a single-statistic-field wrapper (Harmonic, Geometric, Paired) around `inner` (auxiliary fields,
+        if the type has any, hold AUX)."""
+        aux = self.facts.aux_fields.get(adt['path']) or set()
+        n = len(adt['variants'][0]['fields'])
+        real = [i for i in range(n) if i not in aux]
+        if len(real) != 1:
+            raise Unsupported('%s is not a wrapper of one statistics state (%d statistic fields)' % (adt['path'], len(real)))
+        return ('adt', adt['path'], 0, tuple(inner if i == real[0] else T.AUX for i in range(n)))
+
+    def wrapper_inner(self, adt, state):
+        """the wrapped statistics state of a wrapper state term"""
+        aux = self.facts.aux_fields.get(adt['path']) or set()
+        real = [i for i in range(len(state[3])) if i not in aux]
+        if len(real) != 1:
+            raise Unsupported('%s is not a wrapper of one statistics state' % adt['path'])
+        return state[3][real[0]]
